@@ -32,6 +32,13 @@ def execute(case) -> Outcome:
     out = Outcome()
     data = bytes(case["file"])
     offset, size = case["offset"], case["size"]
+    # open-ended window: the constructor gets size=None (what Mp4Atom.load callers do) and the window runs to the
+    # end of the file; until the reader has learnt the size (first seek from the end) a seek past the end is not
+    # clamped by the reader and not covered by the statement, so those steps are skipped (counted).
+    open_ended = bool(case.get("open"))
+    if open_ended:
+        size = len(data) - offset
+    size_known = not open_ended
     window = data[offset:offset + size]
     clock = list(case["clock"]) or [0]
     state = {"i": 0, "reads": 0}
@@ -62,6 +69,11 @@ def execute(case) -> Outcome:
             state["reads"] += 1
             return self.f.read(*a)
 
+        def readinto(self, b):
+            # real sources (FileIO, BytesIO, blob handles) offer readinto; a reader that uses it must still agree
+            state["reads"] += 1
+            return self.f.readinto(b)
+
         def seek(self, *a):
             return self.f.seek(*a)
 
@@ -75,8 +87,8 @@ def execute(case) -> Outcome:
             r = br.BufferedReader(None, data=window)
             out.cls("backing:data")
         else:
-            r = br.BufferedReader(Counting(raw), buffersize=case["buffersize"], offset=offset, size=size,
-                                  max_buffers=case["max_buffers"])
+            r = br.BufferedReader(Counting(raw), buffersize=case["buffersize"], offset=offset,
+                                  size=None if open_ended else size, max_buffers=case["max_buffers"])
             out.cls("backing:" + backing)
         bs = r.buffersize or 1
         pos = 0
@@ -88,6 +100,9 @@ def execute(case) -> Outcome:
             try:
                 if kind == "read":
                     n = op[1]
+                    if not size_known and n != -1 and (n == 0 or pos + n > size):
+                        out.cls("open/skipped-read-past-unknown-end")
+                        continue
                     want = window[pos:] if n == -1 else window[pos:pos + n]
                     got = r.read() if op[1] == -1 and op[2] else r.read(n)
                     eof = "eof" if pos >= size else ("zero" if n == 0 else "data")
@@ -103,6 +118,9 @@ def execute(case) -> Outcome:
                 elif kind == "peek":
                     n = op[1]
                     remaining = size - pos
+                    if not size_known and n > remaining:
+                        out.cls("open/skipped-peek-past-unknown-end")
+                        continue
                     got = r.peek(n)
                     if not isinstance(got, (bytes, bytearray)):
                         eof = "eof" if remaining == 0 else "data"
@@ -120,6 +138,11 @@ def execute(case) -> Outcome:
                 elif kind == "seek":
                     o, whence = op[1], op[2]
                     base = {0: 0, 1: pos, 2: size}[whence]
+                    if not size_known and whence != 2 and base + o > size:
+                        out.cls("open/skipped-seek-past-unknown-end")
+                        continue
+                    if whence == 2:
+                        size_known = True
                     want = max(0, min(size, base + o))
                     got = r.seek(o, whence)
                     if got != want:
@@ -142,7 +165,7 @@ def execute(case) -> Outcome:
         out.cls("evicted" if evicted else "no-eviction",
                 "window-to-eof" if offset + size == len(data) else "window-before-eof",
                 "bs-divides" if size and size % bs == 0 else "bs-not-dividing",
-                "offset0" if offset == 0 else "offset>0")
+                "offset0" if offset == 0 else "offset>0", "open-ended" if open_ended else "explicit-size")
         out.nontrivial = spanning_after_evict
         out.weight = max(1, len(case["ops"]))
     finally:
@@ -200,7 +223,10 @@ class ReaderModel(Engine):
                 st.tuples(st.just("tell")),
             )
             ops = draw(st.lists(op, min_size=1, max_size=40))
-            return {"file": data, "offset": offset, "size": size, "backing": backing, "buffersize": bsz,
+            open_ended = backing != "data" and draw(st.integers(0, 4)) == 0
+            if open_ended:
+                size = rem
+            return {"file": data, "offset": offset, "size": size, "open": open_ended, "backing": backing, "buffersize": bsz,
                     "max_buffers": maxb, "clock": clock, "ops": [list(o) for o in ops]}
         return case()
 
